@@ -528,8 +528,10 @@ double lp_algebraic_number_to_double(const lp_algebraic_number_t* a_const) {
   lp_dyadic_rational_t interval_size;
   dyadic_rational_construct(&interval_size);
   dyadic_rational_sub(&interval_size, &a.I.b, &a.I.a);
-  if (interval_size.n < 100) {
-    int iterations = 100 - interval_size.n;
+  // The size is m/2^n < 2^(bits(m) - n): halve until it is at most 2^-100
+  long size_log = (long) mpz_sizeinbase(&interval_size.a, 2) - (long) interval_size.n;
+  if (size_log > -100) {
+    long iterations = 100 + size_log;
     while (a.f && iterations > 0) {
       lp_algebraic_number_refine_const_internal(&a);
       iterations --;
@@ -594,8 +596,10 @@ void lp_algebraic_number_to_rational(const lp_algebraic_number_t* a_const, lp_ra
   lp_dyadic_rational_t interval_size;
   dyadic_rational_construct(&interval_size);
   dyadic_rational_sub(&interval_size, &a.I.b, &a.I.a);
-  if (interval_size.n < 100) {
-    int iterations = 100 - interval_size.n;
+  // The size is m/2^n < 2^(bits(m) - n): halve until it is at most 2^-100
+  long size_log = (long) mpz_sizeinbase(&interval_size.a, 2) - (long) interval_size.n;
+  if (size_log > -100) {
+    long iterations = 100 + size_log;
     while (a.f && iterations > 0) {
       lp_algebraic_number_refine_const_internal(&a);
       iterations --;
